@@ -3,6 +3,7 @@ import IGVerif.Spec.Symbols
 import IGVerif.Proofs.DenoteLeaves
 import IGVerif.Proofs.ComboMulti
 import IGVerif.Proofs.ComboNorm
+import IGVerif.Proofs.ComboContent
 /-! C01 — components and combinations are parsed exactly as written. -/
 namespace IGVerif.C01
 open IGVerif
@@ -118,6 +119,28 @@ theorem combination_parser_chains_anywhere (o : Op3) (l r : Combo.T) (hw : Combo
           = .res ⟨n, renderE (Combo.toE (.bin o true l r)), Combo.cNoError⟩
        ∧ Combo.toP n = denoteE [] [] (Combo.toE (.bin o true l r)) :=
   ⟨_, Combo.parse_chains o l r hw nested fuel hf, Combo.toP_treeOf _ (Combo.wf_binw _ _ hw)⟩
+
+/-- **The content of a component as `parseComponent` hands it over, outer parentheses missing**
+    (`Bdir(a [AND] b [AND] c)`): the first attempt ends with "operator outside combination" —
+    after whatever rewritings the leading operand needs —, the second attempt in parentheses
+    returns the written tree (`Combo.parseContent` models the two attempts). -/
+theorem component_content_without_outer_parentheses (o : Op3) (l r : Combo.T) (hw : Combo.wf (.bin o true l r) none)
+    (fuel : Nat) (hf : Combo.depth (Combo.toE (.bin o true l r)) ≤ fuel) :
+    ∃ n, Combo.parseContent fuel (Combo.rT (.bin o false l r))
+          = .res ⟨n, renderE (Combo.toE (.bin o true l r)), Combo.cNoError⟩
+       ∧ Combo.toP n = denoteE [] [] (Combo.toE (.bin o true l r)) :=
+  ⟨_, Combo.parseContent_stripped o l r hw fuel hf, Combo.toP_treeOf _ (Combo.wf_binw _ _ hw)⟩
+
+/-- **Shared text written directly inside the component's parentheses**
+    (`Cex(shared (a [AND] b) text)`): parsed at once into the combination carrying the text on
+    both sides as shared text. -/
+theorem shared_text_directly_inside_component (sl sr : Option Str) (o : Op3) (a b : Expr) (ha : Combo.BinW a)
+    (hb : Combo.BinW b) (hsl : ∀ t, sl = some t → Combo.SWord t) (hsr : ∀ t, sr = some t → Combo.SWord t)
+    (nested : Bool) (fuel : Nat) (hf : Combo.depth (.comb o a b) ≤ fuel) :
+    ∃ n, Combo.parse false fuel (optPre sl ++ renderE (.comb o a b) ++ optPost sr) nested
+          = .res ⟨n, optPre sl ++ renderE (.comb o a b) ++ optPost sr, Combo.cNoError⟩
+       ∧ Combo.toP n = denoteE [] [] (.shared sl (.comb o a b) sr) :=
+  ⟨_, Combo.parse_shared_stripped sl sr o a b ha hb hsl hsr nested fuel hf, Combo.toP_shared sl sr o a b ha hb⟩
 
 /-- a value without parentheses and brackets is one leaf -/
 theorem combination_parser_plain_value (t : Str) (h : Combo.Plain t) (nested : Bool) (fuel : Nat) :
